@@ -1,0 +1,21 @@
+//go:build verif
+
+package tmengine
+
+import (
+	"context"
+
+	"github.com/gordian-engine/gordian/tm/tmengine/internal/tmstate"
+)
+
+// Verification hook (add-only, build tag "verif"): re-exports of the internal
+// production round timer so that a harness outside this module can drive it.
+// No behaviour is added.
+
+type VerifStandardRoundTimer = tmstate.StandardRoundTimer
+
+type VerifRoundTimer = tmstate.RoundTimer
+
+func VerifNewStandardRoundTimer(ctx context.Context, s TimeoutStrategy) *VerifStandardRoundTimer {
+	return tmstate.NewStandardRoundTimer(ctx, s)
+}
